@@ -645,18 +645,11 @@ func (p *c21Prop) exec(c *c21Case) (*Violation, *Result) {
 	w := buildWorld(c)
 	k := len(c.Tasks)
 	ctxSeed := func(i int) uint64 { return simrt.Mix(c.Seed, uint64(100+i)) }
-	// phase 1: every task alone, on its own copy of its private root
-	solo := make([]c21TaskResult, k)
-	ws.p.SetGlobalTree(ws.schema.SchemaTree)
-	for i := range c.Tasks {
-		var root ygot.GoStruct
-		if ws.isWriter(c.Tasks[i]) {
-			root = model.Clone(ws.roots[i]).(ygot.GoStruct)
-		}
-		ctx := simrt.NewCtx(i, fmt.Sprintf("solo-%d", i), simrt.MapRandom, ctxSeed(i), nil)
-		simrt.With(ctx, func() { ws.runTask(c.Tasks[i], root, &solo[i]) })
-	}
-	// phase 2: all tasks interleaved, on a schema and messages nobody has touched yet
+	// phase 1: all tasks interleaved, on a schema and messages nobody has touched yet. The
+	// interleaved phase comes FIRST: state that ygot initialises lazily once per process
+	// (a package-level cache filled on first use) must meet its first users while they run
+	// concurrently; a solo phase in front of it would warm such state up and hide a
+	// publication race that can only happen once per process.
 	w.p.SetGlobalTree(w.schema.SchemaTree)
 	ytypes.VerifEvictRegexpCache()
 	conc := make([]c21TaskResult, k)
@@ -678,6 +671,18 @@ func (p *c21Prop) exec(c *c21Case) (*Violation, *Result) {
 	sr, trs := simrt.RunTasks(simrt.SchedCfg{Seed: c.Sched.Seed, MeanGap: c.Sched.MeanGap, Starve: c.Sched.Starve, StarveTo: c.Sched.StarveTo,
 		Replay: c.Sched.Replay, Explicit: c.Sched.Explicit, MaxSteps: 50_000_000, HideSync: c.Sched.RaceMode && *flagHideSync && simrt.RaceBuild, LockBias: c.Sched.LockBias}, ctxs, fns)
 	races := simrt.RaceErrors() - racesBefore
+	// phase 2: every task alone, on its own copy of its private root in an equal world (reference results)
+	solo := make([]c21TaskResult, k)
+	ws.p.SetGlobalTree(ws.schema.SchemaTree)
+	ytypes.VerifEvictRegexpCache()
+	for i := range c.Tasks {
+		var root ygot.GoStruct
+		if ws.isWriter(c.Tasks[i]) {
+			root = model.Clone(ws.roots[i]).(ygot.GoStruct)
+		}
+		ctx := simrt.NewCtx(i, fmt.Sprintf("solo-%d", i), simrt.MapRandom, ctxSeed(i), nil)
+		simrt.With(ctx, func() { ws.runTask(c.Tasks[i], root, &solo[i]) })
+	}
 	res.Steps = sr.Steps
 	res.Extra["sched_hash"] = fmt.Sprintf("%016x", sr.Hash)
 	res.Extra["preempts"] = sr.Preempts
@@ -917,6 +922,10 @@ func (p *c21Prop) warmUp() {
 	c21Warm = true
 	for _, s := range []uint64{2, 3} {
 		c := p.genCase(s, "quick")
+		// always on the repository's small integration schema: whatever ygot initialises lazily
+		// per generated type or per schema stays cold for the other packages, so that their
+		// first users are tasks of a real, interleaved case
+		c.Pkg = "cts"
 		p.exec(c)
 	}
 }
